@@ -324,7 +324,10 @@ class GraphBuilder:
             for n in self.order:
                 v = self.vals[n]
                 if v.kind == "node":
-                    vis.append(pb.value_info(n, pb.DT2ONNX[v.dt], list(v.shape)))
+                    # Concrete sizes are only true facts about the model if no
+                    # input dim is symbolic; otherwise declare the rank only.
+                    shape = list(v.shape) if not self.symbols else [None] * v.rank
+                    vis.append(pb.value_info(n, pb.DT2ONNX[v.dt], shape))
         g = pb.graph(self.name, nodes, inits, ins, outs, vis)
         return pb.model(g, self.opset)
 
